@@ -10,7 +10,9 @@ Decided clauses:
   R3  a thunk found in progress is reported as infinite recursion (decision table over ThunkState)
   R4  the evaluator, comparison, manifestation and string-conversion code is free of native
       recursion (shared with C01.R1)
-Not decided: that every value-dependent nesting passes through a trace item; the exact off-by-one.
+  R5  no descent into a run-time value without a counted frame (state-push graph with trace-item
+      coverage: a handler that forces elements of a popped container is not re-entered frame-free)
+Not decided: nesting through expression evaluation beyond R2/R5; the exact off-by-one.
 """
 from . import cg, kwalk, evalmarks as em, height, prov
 from .facts import callee_name
@@ -244,11 +246,70 @@ def rule_r4(F, rep):
     rep.floor(R, n, 400, "evaluator function instances")
 
 
+def rule_r5(F, rep):
+    from . import pushgraph
+    from collections import deque
+    R = rep.rule("C10.R5", "evaluation never descends into a run-time value without a counted frame: when a handler takes a "
+                 "container value from the value stack and forces one of its elements, either that push is covered by a "
+                 "trace item of the handler, or the states pushed with it cannot lead back to the same handler without "
+                 "passing a counted frame (otherwise the handler is re-applied to an element of its own input: a "
+                 "self-containing or deeply nested value loops / exhausts memory instead of reporting stack overflow)")
+    G = pushgraph.PushGraph(F)
+    for node, site in G.unknown:
+        rep.violation(R, "%s|unresolved-push" % node[1], "a state pushed by %s could not be resolved to a State variant / "
+                      "function (fail closed)" % node[1], site)
+    z = G.zero_graph()
+    # the search is for *value-processing* cycles: forcing a thunk, evaluating an expression and entering a function
+    # value dispatch into arbitrary code, whose frames are the business of want_thunk_direct / the call sites (R2)
+    avoid = {("S", "DoThunk"), ("S", "Expr"), ("F", "<%s>::do_expr" % EVAL), ("F", "<%s>::execute_call" % EVAL)}
+
+    def back(src):
+        par = {}
+        q = deque()
+        for m in sorted(z.get(src, ())):
+            if m not in avoid and m not in par:
+                par[m] = None
+                q.append(m)
+        while q:
+            n = q.popleft()
+            if n == src:
+                p = []
+                while n is not None:
+                    p.append(n)
+                    n = par[n]
+                return list(reversed(p))
+            for m in sorted(z.get(n, ())):
+                if m not in par and m not in avoid:
+                    par[m] = n
+                    q.append(m)
+        return None
+
+    nsites = 0
+    for node, ds in sorted(G.destr.items()):
+        nsites += len(ds)
+        name = node[1]
+        unc = [d for d in ds if d[1] <= 0]
+        cyc = back(node) if unc else None
+        ok = cyc is None
+        rep.ob(R, "descent|%s" % name, ok, {"handler": name, "element_forcing_sites": [d[0] for d in ds],
+                                            "covered_by_own_trace_item": not unc})
+        if not ok:
+            rep.violation(R, "%s|descent-without-frame" % name,
+                          "%s takes a container from the value stack and forces its elements (%s) without a trace item, and "
+                          "the continuation leads back to it without a counted frame: %s — a self-containing or deeply "
+                          "nested value is followed without limit" % (name, unc[0][0], " -> ".join(x[1].rsplit("::", 1)[-1] for x in cyc)),
+                          unc[0][0])
+    rep.floor(R, nsites, 30, "element-forcing sites on popped container values")
+    rep.floor(R, sum(len(v) for v in G.edges.values()), 1000, "state-push / helper-call edges")
+
+
 def run(F, rep, tier):
     rule_r1(F, rep)
     rule_r2(F, rep)
     rule_r3(F, rep)
     rule_r4(F, rep)
-    rep.assume("that every value-dependent nesting (call, thunk, comparison, manifestation) passes through a trace "
-               "item is not decided; the exact off-by-one of the limit is not decided")
+    rule_r5(F, rep)
+    rep.assume("tail calls marked `tailstrict` are deliberately not counted (tail-call elimination is the language's "
+               "semantics); frames for nesting that goes through expression evaluation are decided only as far as R2/R5 "
+               "reach; the exact off-by-one of the limit is not decided")
     return EXPLANATION
